@@ -267,10 +267,15 @@ def render_record(names, table, style, interval):
     k = len(table)
     nl = {0: "\n", 1: "\n   ", 2: " ", 3: "\n\t"}[style]
     sp = {0: " ", 1: "  ", 2: "", 3: " "}[style]
+    def row_text(row):
+        # GAP prints consecutive ascending integer lists as ranges [a..b]
+        if interval and len(row) >= 2 and all(row[i + 1] == row[i] + 1 for i in range(len(row) - 1)):
+            return "[%d..%d]" % (row[0], row[-1])
+        return "[" + ("," + ("" if style in (0, 2) else " ")).join(str(t) for t in row) + "]"
     rows = ("," + nl + " " * (10 if style == 0 else 0)).join(
-        "[" + ("," + ("" if style in (0, 2) else " ")).join(str(t) for t in row) + "]" + (" " if style == 1 else "")
-        for row in table)
+        row_text(row) + (" " if style == 1 else "") for row in table)
     acc = ("[1..%d]" % k) if (interval and k >= 1) else "[" + ",".join(str(i + 1) for i in range(k)) + "]"
+    init = "[1..1]" if interval and style in (1, 3) else "[1]"
     return ("_RWS.wa" + sp + ":=" + sp + "rec(" + nl +
             "isFSA" + sp + ":=" + sp + "true," + nl +
             "alphabet" + sp + ":=" + sp + "rec(" + nl +
@@ -279,7 +284,7 @@ def render_record(names, table, style, interval):
             "names" + sp + ":=" + sp + "[" + ",".join(names) + "]" + nl + ")," + nl +
             "states := rec(" + nl + "type := \"simple\"," + nl + "size := %d" % k + nl + ")," + nl +
             "flags := [\"DFA\",\"minimized\",\"BFS\",\"accessible\",\"trim\"]," + nl +
-            "initial" + sp + ":=" + sp + "[1]," + nl +
+            "initial" + sp + ":=" + sp + init + "," + nl +
             "accepting" + sp + ":=" + sp + acc + "," + nl +
             "table := rec(" + nl + "format := \"dense deterministic\"," + nl +
             "numTransitions := %d," % sum(1 for r in table for t in r if t) + nl +
